@@ -31,8 +31,10 @@ FailsOptimize(e) ==
     THEN Unless(e.raised = "ValueError", "C18.refuse")
     ELSE LET key == <<e.cfgid, e.t>>
              same == \A d \in RefOf(key) : d = e.digest
-         IN  IF key \in refbad          \* the key crashes in the reference interpreter too: a crash finding (C06), nothing to compare
-             THEN Unless(e.caller_same, "C09.cfg") \cup Unless(e.task_same, "C09.task")
+         IN  IF key \in refbad \/ RefOf(key) = {}
+             \* no successful reference for this key (it crashes in the reference interpreter too, or the configuration is not
+             \* one of the two reference configurations): a crash is C06's business and there is nothing to compare with
+             THEN Unless(e.caller_same, "C09.cfg") \cup Unless(e.task_same, "C09.task") \cup Unless(e.earlier_same, "C08.immutable")
              ELSE
              Unless(e.raised = "", IF nruns > 0 THEN "C08.crash" ELSE "C07.crash_fresh")
              \cup Unless(e.raised # "" \/ nruns > 0 \/ same, "C07.equal")           \* two fresh runs of one key differ
